@@ -66,7 +66,7 @@ def has_unknown(t):
 
 
 def subterms(t):
-    if isinstance(t, tuple):
+    if isinstance(t, tuple) and t:
         yield t
         for x in t:
             if isinstance(x, tuple):
